@@ -55,10 +55,10 @@ def akeys {β} (d : AList β) : List Name := d.map (·.1)
 def aupdate {β} (d e : AList β) : AList β := e.foldl (fun acc kv => aset acc kv.1 kv.2) d
 
 /-- `k.startswith('__')` -/
-def isDunder (k : Name) : Bool := k.startsWith "__"
+def isDunder (k : Name) : Bool := match k.toList with | '_' :: '_' :: _ => true | _ => false
 
 /-- `k.startswith('_')` -/
-def isPrivate (k : Name) : Bool := k.startsWith "_"
+def isPrivate (k : Name) : Bool := match k.toList with | '_' :: _ => true | _ => false
 
 /-! ### values and the heap -/
 
@@ -229,12 +229,19 @@ def classKeys (cs : Classes) (c : CClass) : List Name :=
   | some ks => if ks.isEmpty then own else ks
   | none => own
 
-/-- `SimpleConfig.items` (classmethod): `(k, getattr(cls, k)) for k in cls.keys()` -/
-def classItems (cs : Classes) (c : CClass) : Except CErr (AList Val) :=
-  (classKeys cs c).mapM fun k =>
+/-- the generator `((k, getattr(cls, k)) for k in …)` of `SimpleConfig.items`, consumed to the end -/
+def itemsLoop (cs : Classes) (c : CClass) : List Name → Except CErr (AList Val)
+  | [] => .ok []
+  | k :: r =>
     match getattrC cs c k with
-    | some v => .ok (k, v)
     | none => .error .attributeError
+    | some v =>
+      match itemsLoop cs c r with
+      | .ok l => .ok ((k, v) :: l)
+      | .error e => .error e
+
+/-- `SimpleConfig.items` (classmethod): `(k, getattr(cls, k)) for k in cls.keys()` -/
+def classItems (cs : Classes) (c : CClass) : Except CErr (AList Val) := itemsLoop cs c (classKeys cs c)
 
 /-- `SimpleConfig.get` (classmethod): `getattr(cls, k) if k in cls.keys() else default` -/
 def classGet (cs : Classes) (c : CClass) (k : Name) (d : Val) : Except CErr Val :=
@@ -318,17 +325,15 @@ structure App where
 structure World where
   classes : Classes
   heap : Heap
-  apps : List (Nat × App) := []
+  apps : Nat → Option App := fun _ => none       -- the application variables
   regs : AList Nat := []
-  deriving Repr, Inhabited
 
 def World.boot : World := { classes := bootClasses.2, heap := bootClasses.1 }
 
-def World.app (w : World) (a : Nat) : Option App := (w.apps.find? (·.1 == a)).map (·.2)
+def World.app (w : World) (a : Nat) : Option App := w.apps a
 
 def World.setApp (w : World) (a : Nat) (x : App) : World :=
-  { w with apps := if (w.apps.any (·.1 == a)) then w.apps.map (fun p => if p.1 == a then (a, x) else p)
-                   else w.apps ++ [(a, x)] }
+  { w with apps := fun b => if b = a then some x else w.apps b }
 
 /-- `DefaultConfig(config)` followed by `RequestConfig.get_from(config)` on the NameSpace just built: the two
 assignments `Ombott.__init__` / `Ombott.setup` make (`self.config = config = DefaultConfig(config)`;
@@ -397,16 +402,15 @@ inductive CpOp
   | cls                              -- `Cls.prop` → the descriptor itself (`obj is None`)
   deriving Repr, DecidableEq, Inhabited
 
-/-- the slot of every instance, and how often the getter has run (its n-th run returns `n`) -/
+/-- the slot (`obj.__dict__.get('prop')`) of every instance, and how often the getter has run (its n-th run returns `n`) -/
 structure CpState where
-  slots : List (Nat × Val) := []
+  slots : Nat → Option Val := fun _ => none
   runs : Nat := 0
-  deriving Repr, DecidableEq, Inhabited
 
-def CpState.slot (s : CpState) (i : Nat) : Option Val := (s.slots.find? (·.1 == i)).map (·.2)
+def CpState.slot (s : CpState) (i : Nat) : Option Val := s.slots i
 
 def CpState.setSlot (s : CpState) (i : Nat) (v : Option Val) : CpState :=
-  { s with slots := (s.slots.filter (·.1 != i)) ++ (match v with | some x => [(i, x)] | none => []) }
+  { s with slots := fun j => if j = i then v else s.slots j }
 
 /-- the getter of the probe: counts its runs -/
 def cpGetter (runs : Nat) : GetterMode → Except CErr Val
